@@ -83,7 +83,7 @@ func vfC06Parse(e vfC06Entry) (p vfC06Parsed) {
 
 	p.kind = vfC06CNAME
 	// host names are case-insensitive, in answers as in patterns
-	p.target = strings.ToLower(e.Answer)
+	p.target = strings.TrimSuffix(strings.ToLower(e.Answer), ".")
 
 	return p
 }
